@@ -7,6 +7,7 @@ import Tau.Properties.C06
 import Tau.Proofs.Batch
 import Tau.Proofs.Shake0
 import Tau.Proofs.MatrixTruth
+import Tau.Proofs.Shake1Truth
 import Tau.Proofs.MappingShake
 import Tau.Properties.C03
 /-
@@ -673,5 +674,87 @@ theorem optimise_verdict_uncoalesced (E : RegexEngine) (hL : StripLaw E) (ic : B
         simp only [Option.map_some, solveClosed, optBody, Bool.false_eq_true, if_false, id]
         exact exact closedK b (hb i b hl) (fun hs' => (hs hs').2 i b hl) d
     rw [pshape_congrK E _ _ d _ hshape hm hid']
+
+/-! ### Negation-free rules: nested mappings inside conjunctions too -/
+
+/-- **shake_1 keeps every verdict** on the negation-free class `e2OK`, which — unlike `e1OK` — lets
+    and-groups hold nested mappings: the pass merges those per field into one all()-block and moves
+    it behind the other conjuncts, which can swap false and missing (`shake_and_reorder_unsound`)
+    but never changes whether the conjunction is true. (Needs the repaired merge: a block that
+    already is an all()-list contributes its members.) -/
+theorem shake1_verdict (E : RegexEngine) (K : IdentK) (fuel : Nat) (e : Expr) (h : e2OK e = true) (d : Doc) :
+    (solveG E K d (shake1 fuel e)).isT = (solveG E K d e).isT :=
+  isT_congr _ _ ((shake1_goodT E K fuel e h).2.1 d)
+
+theorem shake1_verdict_closed (fuel : Nat) (e : Expr) (h : e2OK e = true) : e2OK (shake1 fuel e) = true :=
+  (shake1_goodT E0 closedK fuel e h).1
+
+/-- Both halves of `shake`, verdict level. -/
+theorem shake_verdict (E : RegexEngine) (K : IdentK) (e : Expr) (hok : shakeOK e = true)
+    (hfl : (shake0F (shakeFuel e) e).2 = false) (h2 : e2OK (shake0 (shakeFuel e) e) = true) (d : Doc) :
+    (solveG E K d (shake e)).isT = (solveG E K d e).isT := by
+  unfold shake
+  rw [shake1_verdict E K _ _ h2 d, shake0_exact E K _ e hok hfl d]
+
+/-- **Rule level, every switch combination with coalesce, negation-free rules**: as
+    `optimise_verdict`, with the shake side condition `xOK` (no nested mapping among the operands of
+    an `and`) replaced by `e2OK` of the tree `shake_0` hands to `shake_1` — a mapping may mix nested
+    mappings and plain keys. -/
+theorem optimise_verdict_positive (E : RegexEngine) (hL : StripLaw E) (ic : Bool) (src : RuleSrc) (r : Rule)
+    (h : loadRule E ic src = .ok r) (hopt : r.optimised = false)
+    (shake' rewrite' matrix' : Bool)
+    (hs : shake' = true →
+      (∀ i ∈ matchIds r.det.expr, ∀ b, lookupId r.det.ids i = some b → matchChildOK b = true) ∧
+      (shake0F (shakeFuel (coalesce r.det.ids r.det.expr)) (coalesce r.det.ids r.det.expr)).2 = false ∧
+      e2OK (shake0 (shakeFuel (coalesce r.det.ids r.det.expr)) (coalesce r.det.ids r.det.expr)) = true)
+    (hm : matrix' = true →
+      mOK ((if rewrite' then rewrite E else id)
+        ((if shake' then shake else id) (coalesce r.det.ids r.det.expr))) = true)
+    (d : Doc) :
+    (r.optimise E ⟨true, shake', rewrite', matrix'⟩).matches E d = r.matches E d := by
+  have hdet : loadDetection E ic src.det = .ok r.det := by
+    unfold loadRule at h
+    split at h
+    · cases h
+    · cases h; assumption
+  have hshape := (C03.loaded_condition_shape E ic src.det r.det hdet).1
+  have hb : ∀ i b, lookupId r.det.ids i = some b → shakeOK b = true :=
+    fun i b hl => loaded_bodies_shakeOK E ic src.det r.det hdet i b hl
+  have h0 : solveG E closedK d (coalesce r.det.ids r.det.expr) = solveTop E r.det.ids d r.det.expr :=
+    coalesce_sound E r.det.ids d r.det.expr hshape
+  have h1 : (solveG E closedK d ((if shake' then shake else id) (coalesce r.det.ids r.det.expr))).isT =
+      (solveTop E r.det.ids d r.det.expr).isT := by
+    cases shake' with
+    | false => simp only [Bool.false_eq_true, if_false, id]; rw [h0]
+    | true =>
+      obtain ⟨a, b, c⟩ := hs rfl
+      simp only [if_true]
+      rw [shake_verdict E closedK _ (coalesce_shakeOK r.det.ids r.det.expr hshape hb a) b c d, h0]
+  have h2 : (solveG E closedK d ((if rewrite' then rewrite E else id)
+      ((if shake' then shake else id) (coalesce r.det.ids r.det.expr)))).isT =
+      (solveTop E r.det.ids d r.det.expr).isT := by
+    cases rewrite' with
+    | false => exact h1
+    | true => simp only [if_true]; rw [rewrite_sound E hL closedK d]; exact h1
+  unfold Rule.matches Rule.optimise Rule.solve
+  simp only [hopt, Bool.false_eq_true, if_false, optimiseTree, if_true, List.map_nil]
+  rw [← h2]
+  cases matrix' with
+  | false =>
+    cases shake' <;> cases rewrite' <;> simp [solveTop, topK_nil]
+  | true =>
+    have := matrix_verdict E closedK _ (hm rfl) d
+    cases shake' <;> cases rewrite' <;> simpa [solveTop, topK_nil] using this
+
+/-- Not vacuous: a mapping that mixes two nested mappings on one field with a plain key is in the
+    class, and shake_1 really merges the two blocks and moves them behind the plain conjunct. -/
+example :
+    let s (k : Str) (v : Str) : Expr := .search (.exact v) k false
+    let e : Expr := .group .and [.nested ['f'] (s ['k'] ['a']), s ['g'] ['b'], .nested ['f'] (s ['j'] ['c'])]
+    e2OK e = true ∧
+      (match shake1 6 e with
+       | .group .and [.search _ _ _, .nested _ (.match .all (.group .or ms))] => ms.length
+       | _ => 0) = 2 := by
+  decide
 
 end Tau.C01
